@@ -335,6 +335,26 @@ Example C06_ping_ack_inside_block_rejected :
     [C (FHeaders 1 16384 false true); P (FPing false); C (FPing true); C (FContinuation 1 100 true)] = false.
 Proof. vm_compute. split; reflexivity. Qed.
 
+(* stream id allocation: the id counter never moves backwards, whatever event is handled and over
+   any event list - an id taken by a request that never reached the wire (EOpenRefused: header
+   block refused locally / cancelled before the write) is burned, not handed out again.  With
+   C06_stream_ids_odd_increasing (which quantifies over event lists containing EOpenRefused) the
+   ids on the wire stay odd and strictly increasing. *)
+Theorem C06_next_id_never_rewinds : forall c e, cc_next_id c <= cc_next_id (fst (conn_step c e)).
+Proof. exact next_id_never_rewinds. Qed.
+Print Assumptions C06_next_id_never_rewinds.
+
+Theorem C06_next_id_run_monotone : forall evs c, cc_next_id c <= cc_next_id (fst (conn_run c evs)).
+Proof. exact next_id_run_monotone. Qed.
+Print Assumptions C06_next_id_run_monotone.
+
+Example C06_refused_ids_burned :
+  trace_of 0 0 1000 1000 [EOpen 10 true; EOpenRefused; EOpen 10 true; EOpenRefused; EOpenRefused; EOpen 12 true] =
+    [C (FHeaders 1 10 true true); C (FHeaders 5 10 true true); C (FHeaders 11 12 true true)] /\
+  accepts (mon_init 1000 1000)
+    [C (FHeaders 1 10 true true); C (FHeaders 5 10 true true); C (FHeaders 5 10 true true)] = false.
+Proof. vm_compute. split; reflexivity. Qed.
+
 (* non-vacuity: a legal configuration (priority fields on HEADERS, Firefox-like PRIORITY frames up
    to stream 13, stream window 1000) and an interleaving with a 40000-byte header block, the
    peer lowering MAX_CONCURRENT_STREAMS to 1 and INITIAL_WINDOW_SIZE to 100 and then 0 (window
